@@ -16,7 +16,7 @@ import numpy as np
 
 from engine.tlc import run_tlc, MachineryError
 from drivers.common import pmap
-from drivers import conf
+from drivers import conf, cli
 
 LEVEL = "model_checking"
 
@@ -115,6 +115,18 @@ def make_cases(ctx, rng):
             id0 += 10
         cases.append({"kind": "rolluptool", "colls": colls, "extra_levels": [["prec"], ["mod"], ["mod", "prec"]][j % 3], "dedup": bool(j % 2),
                       "chunk": 1 + j % 5, "fmt": "pin", "prefixes": ["a", "b", "c"][:k], "workers": 1})
+    # the command-line run: naming configurations enumerated by TLC from Pipeline.tla
+    pipe = [p for p in run_tlc("Pipeline", "Pipeline_gen.cfg", workers=1).prints if p and p[0] == "CASE"]
+    if len(pipe) < 100:
+        raise MachineryError("Pipeline.tla generated only %d configurations" % len(pipe))
+    ncli = 24 if ctx.quick else 400
+    for j, k in enumerate(rng.permutation(len(pipe))[:ncli]):
+        _, inputs, aggregate, decoys, rollup, ragged = pipe[int(k)]
+        cases.append({"kind": "cli", "files": [{"dir": d, "stem": st, "n": int(rng.choice([300, 400])), "seed": int(rng.integers(1, 10 ** 6)),
+                                                "ragged": bool(rg)} for (d, st), rg in zip(inputs, ragged)],
+                      "aggregate": bool(aggregate), "decoys": True, "rollup": bool(rollup), "dedup": bool(j % 3),
+                      "file_root": "xp" if j % 4 == 0 else None, "folds": 2 + j % 2, "workers": 1 + j % 2,
+                      "colls": []})
     return cases
 
 
@@ -124,6 +136,11 @@ def run_case(case):
     try:
         if c["kind"] == "assign":
             trs, _ = conf.run_assign(c)
+            return trs
+        if c["kind"] == "cli":
+            trs, info = cli.run_cli(c)
+            for t in trs:
+                t["equal_stems"] = bool(info["equal_stems"])
             return trs
         tr, info = conf.run_rollup_tool(c)
         # classification only (known finding F-03c): did some PSM result file handed to the tool have no data row?
@@ -135,6 +152,10 @@ def run_case(case):
 
 def signature(case, tr, failed):
     rows = [(r["spec"], tuple(r["key"]), r["tgt"], r["rank"]) for c in case["colls"] for r in c["rows"]]
+    if case["kind"] == "cli":
+        return {"api": "cli", "equal_stems": bool(tr.get("equal_stems")), "aggregate": case["aggregate"], "rollup": case["rollup"],
+                "dedup": case["dedup"], "file_root": case["file_root"], "files": [(f["dir"], f["stem"], f["ragged"]) for f in case["files"]],
+                "raised": (tr.get("raised") or "").split(":")[0]}
     return {"api": "brew_rollup" if case["kind"] == "rolluptool" else "assign_confidence",
             "dedup": case.get("dedup"), "rollup": case.get("rollup", True), "decoys": case.get("decoys", True),
             "ncoll": len(case["colls"]), "prefixed": bool(case.get("prefixes")), "fmt": case.get("fmt"),
@@ -191,6 +212,9 @@ def run(ctx):
                     note="AsIs_ChunkDedupOnRollup (the defect repaired by the fix: commit for F-03)")
     ctx.model_check("Confidence", "Confidence_mut1.cfg", expect_violation="RollupLevelsOK", note="seeded fault: seen-set before competition")
     ctx.model_check("Confidence", "Confidence_mut2.cfg", expect_violation="PrefixSorted", note="seeded fault: merge emits smallest head")
+    ctx.model_check("Pipeline", "Pipeline_quick.cfg", note="CLI naming: <=3 input files x dirs x stems x aggregate x decoys x rollup x ragged")
+    ctx.model_check("Pipeline", "Pipeline_asis.cfg", expect_violation="ResultsOfEveryCollection",
+                    note="AsIs_PrefixIsStem: equal stems in different directories collide (open finding F-03d)")
     r = ctx.model_check("Confidence", "Confidence_cov.cfg", coverage=True, note="action coverage")
     ctx.require_actions(r, ["AddRow", "Begin", "WriteChunk", "Glob", "MergeScan", "Finish"])
     # ---------------- (G) + drive ----------------
@@ -208,9 +232,9 @@ def run(ctx):
             traces.append(t)
             owner.append(ci)
         c = cases[ci]
-        ctx.count((c["kind"], str([[(r["spec"], tuple(r["key"]), r["tgt"], r["rank"]) for r in cc["rows"]] for cc in c["colls"]]),
-                   c.get("dedup"), c.get("rollup"), c.get("decoys"), c.get("chunk"), c.get("fmt")))
-        if ci in (0, len(cases) // 2, len(cases) - 1):
+        ctx.count((c["kind"], str([[(r["spec"], tuple(r["key"]), r["tgt"], r["rank"]) for r in cc["rows"]] for cc in c["colls"]]) if c["colls"] else str(c["files"]),
+                   c.get("dedup"), c.get("rollup"), c.get("decoys"), c.get("chunk"), c.get("fmt"), c.get("aggregate"), c.get("file_root")))
+        if ci in (0, len(cases) // 2) and c["colls"]:
             ctx.sample({"case": {k: v for k, v in c.items() if k != "colls"},
                         "rows": c["colls"][0]["rows"][:6], "files": [{"level": f["level"], "td": f["td"], "rows": f["rows"][:3]} for f in trs[0]["files"][:3]]})
     # ---------------- (V) ----------------
